@@ -287,18 +287,43 @@ func (lr *lbRun) finish(res *lbResult, level string, extra map[string]interface{
 	for _, w := range kh {
 		fmt.Printf("KNOWN-FINDING: property=%s %s (%d paths)\n", prop, w, knownHits[w])
 	}
-	for i, f := range viols {
-		if i >= 20 {
-			fmt.Printf("... %d more violations suppressed\n", len(viols)-20)
+	spurious, replayed, reproduced := 0, 0, 0
+	convSeen := map[string]int{}
+	for i := range viols {
+		f := viols[i]
+		if violations >= 20 {
+			fmt.Printf("... further violations suppressed (%d candidates in total)\n", len(viols))
 			break
 		}
-		dir := saveReplay(replayDir, prop, i, &f, res)
+		dir := filepath.Join(replayDir, fmt.Sprintf("case%02d", i))
+		status := "unsupported: generation outcome"
+		if f.Kind != "generation" {
+			// one native replay per conv and kind is enough
+			key := f.Conv + "|" + f.Kind
+			convSeen[key]++
+			if convSeen[key] > 1 && replayed >= 6 {
+				status = "unsupported: replay budget"
+			} else {
+				status, _ = res.Driver.Replay(&f, dir)
+				if !strings.HasPrefix(status, "unsupported") {
+					replayed++
+				}
+			}
+		}
+		f.Replayed = status
+		if status == "not-reproduced" {
+			spurious++
+			saveReplay(replayDir, prop, i, &f, res)
+			fmt.Printf("SPURIOUS: conv=%s kind=%s at=%s (%s) did not reproduce natively (engine/oracle bug), see %s\n", f.Conv, f.Kind, f.Path, f.Note, dir)
+			continue
+		}
+		if status == "reproduced" {
+			reproduced++
+		}
+		saveReplay(replayDir, prop, i, &f, res)
 		violations++
 		fmt.Printf("VIOLATION property=%s replay=%s\n", prop, dir)
-		fmt.Printf("  conv=%s kind=%s at=%s: %s\n  input: %s\n", f.Conv, f.Kind, f.Path, f.Note, f.Input)
-	}
-	if len(viols) > 20 {
-		violations = len(viols)
+		fmt.Printf("  conv=%s kind=%s at=%s: %s\n  input: %s\n  native replay: %s\n", f.Conv, f.Kind, f.Path, f.Note, f.Input, status)
 	}
 	for _, s := range skipped {
 		fmt.Println("SKIPPED:", s)
@@ -315,6 +340,9 @@ func (lr *lbRun) finish(res *lbResult, level string, extra map[string]interface{
 	cov := map[string]interface{}{
 		"programs":              programs,
 		"disagreements_checked": len(viols) + len(knownHits),
+		"native_replays":        replayed,
+		"native_replays_reproduced": reproduced,
+		"spurious_counterexamples":  spurious,
 		"samples":               samples,
 		"evaluations":           paths,
 		"distinct_nontrivial":   distinct,
@@ -346,6 +374,9 @@ func (lr *lbRun) finish(res *lbResult, level string, extra map[string]interface{
 	fmt.Printf("%s: %d programs, %d paths, %d/%d obligations discharged, %d violations, %d known, %.1fs\n", prop, programs, paths, discharged, obligations, violations, len(kh), time.Since(startTime).Seconds())
 	if violations > 0 {
 		return 1
+	}
+	if spurious > 0 {
+		return 2
 	}
 	return 0
 }
